@@ -156,8 +156,8 @@ class Parser(object):
                     self._parser_check(self._is_type_sizer_compatible(bound.type_name),
                                        "Sizer of '{}' has to be of (unsigned) integer type".format(name),
                                        line, pos)
-                    self._parser_check(not bound.optional,
-                                       "Sizer of '{}' must not be optional".format(name),
+                    self._parser_check(not bound.optional and not bound.is_array,
+                                       "Sizer of '{}' must not be optional nor an array".format(name),
                                        line, pos)
                 else:
                     self._parser_error("Sizer of '{}' has to be defined before the array".format(name),
